@@ -293,7 +293,7 @@ def check_property(pid, tier, repo, scratch, seed):
                 return False
             return True
         if relv.get('site_tag'):
-            if relv['site_tag'] in st:
+            if relv['site_tag'] in st or any(w in st for w in relv.get('words_any_kind', [])):
                 return True
             # the tagged assertions are proved from loop invariants: a failed invariant clause that carries one of these
             # words takes the ground away from them
